@@ -142,6 +142,15 @@ TEMPLATES = [
     ((('lit', 'a'), ('sep', '/'), ('gstar',), ('sep', '//'), ('gstar',), ('sep', '/'), ('grp', '!', ((('lit', 'b'),),))), '', ['a/', 'a/c', 'a/b', 'a/c/b', 'a/c/d', 'a//']),
     ((('gstarlong',), ('sep', '/'), ('gstar',), ('sep', '/'), ('gstarlong',), ('sep', '/'), ('lit', 'b')), '', ['b', 'b/', 'a/b', 'a/c/b']),
     ((('gstar',), ('sep', '/'), ('gstarlong',), ('sep', '/'), ('q',)), '', ['a', 'a/', 'b/a', '/', 'ab']),
+    # a bracket expression never matches the separator, wherever it stands and however the separator got into it (range, class, negation)
+    ((('lit', 'a'), ('set', False, (('r', '+', '9'),)), ('lit', 'b')), '', ['a/b', 'a.b', 'a5b', 'ab', 'a+b', 'a/b/', 'a//b']),
+    ((('lit', 'a'), ('set', False, (('p', 'punct'),)), ('lit', 'b')), '', ['a/b', 'a.b', 'a5b', 'ab', 'a+b', 'a-b']),
+    ((('lit', 'a'), ('set', True, (('c', 'x'),)), ('lit', 'b')), '', ['a/b', 'a.b', 'axb', 'ab', 'a+b']),
+    ((('set', False, (('r', '+', '9'),)), ('lit', 'b')), '', ['/b', '+b', '.b', 'b', '5b']),
+    ((('star',), ('set', False, (('r', ' ', '~'),))), '', ['a/', 'ab', 'a', '/', 'a/b']),
+    ((('lit', 'x'), ('sep', '/'), ('lit', 'a'), ('set', False, (('p', 'graph'),)), ('lit', 'b'), ('sep', '/'), ('lit', 'y')), '', ['x/a/b/y', 'x/a.b/y', 'x/a-b/y', 'x/ab/y']),
+    ((('grp', '@', ((('lit', 'a'), ('set', False, (('r', '+', '9'),)), ('lit', 'b')),)),), '', ['a/b', 'a.b', 'a5b', 'ab']),
+    ((('lit', 'a'), ('q',), ('set', False, (('r', '%', 'z'),)), ('star',)), '', ['ab/', 'ab/c', 'abc', 'abcd', 'a//', 'ab5']),
 ]
 
 
